@@ -320,10 +320,10 @@ func (self *linkedPairs) Get(key string) (*Pair, int) {
 		i, ok := self.index[caching.StrHash(key)]
 		if ok {
 			n := self.At(i)
-			if n.Key == key && (key != "" || n.Value.Exists()) {
+			if n != nil && n.Key == key && (key != "" || n.Value.Exists()) {
 				return n, i
 			}
-			// hash conflicts, or the indexed pair was softly removed
+			// hash conflicts, or the indexed pair was softly removed (and maybe popped since)
 			goto linear_search
 		} else {
 			return nil, -1
